@@ -887,6 +887,13 @@ def gen_flow(rng, idx, kind):
         if rng.random() < p:
             hooks.append({"name": name, "types": list(types), "beh": ["ok"], "allow_failure": False})
     rng.shuffle(hooks)
+    # hooks whose type list spans the file-level / certificate-level divide (one audit hook for a file event AND the
+    # post-operation report / a challenge): placed by the index, no draw (the file type first: it labels the file records)
+    span = [("m-span-post", ["file-post-create", "post-operation"]), ("m-span-edit", ["file-post-edit", "post-operation", "challenge-dns-01-clean"]),
+            ("m-span-chall", ["file-pre-create", "challenge-http-01", "challenge-dns-01"]), ("m-span-pre", ["file-pre-edit", "post-operation"])]
+    if idx % 2 == 0:
+        for j in (idx // 2 % 4, (idx // 2 + 1) % 4):
+            hooks.insert((idx + 3 * j) % (len(hooks) + 1), {"name": span[j][0], "types": list(span[j][1]), "beh": ["ok"], "allow_failure": False})
     used = [("challenge-" + c) for _, c in ids]
     code = lambda: rng.choice([1, 2, 3, 77, 255])
 
@@ -1334,6 +1341,8 @@ def run_flow(ctx, spec, root, doc):
         ctx.count("flow:identifiers:%d" % len(spec["identifiers"]))
         ctx.count("flow:hooks-defined:%d" % len(spec["hooks"]))
         ctx.count("flow:multi-typed-hooks:%d" % sum(1 for h in spec["hooks"] if len(h["types"]) > 1))
+        ctx.count("flow:hooks-spanning-file-and-certificate-level:%d" % sum(
+            1 for h in spec["hooks"] if set(h["types"]) & set(FILE_TYPES) and set(h["types"]) & set(CERT_TYPES)))
         ctx.count("flow:groups:%d" % len(spec["groups"]))
         ok = run_flow_phase(ctx, spec, root, helper, ca, 1, doc, replay_obj)
         if ok and "phase2" in spec:
